@@ -78,7 +78,10 @@ FANOUT = {
 
 def strategy(tier):
     return st.fixed_dictionaries({"ops": st.lists(OP, min_size=2, max_size=25),
-                                  "prelude": st.sampled_from([None, None, "scalar", "list", "scalar-one-way"])})
+                                  "prelude": st.sampled_from([None, None, "scalar", "list", "scalar-one-way"]),
+                                  # how each successive sync_trait call is SPELLED: [omit the alias argument when it equals the
+                                  # trait name, issue the removal of a mutual link from the partner's side]
+                                  "spell": st.lists(st.tuples(st.booleans(), st.booleans()).map(list), min_size=6, max_size=6)})
 
 
 def accepts(name, val):
@@ -129,6 +132,20 @@ def run(case, ctx):
     objs = [A(), A(), A()]
     for i, o in enumerate(objs):
         o.__dict__["_n"] = i
+    spell = case.get("spell") or [[False, False]]
+    ncall = [0]
+
+    def do_sync(i, n, j, a, **kw):
+        """One sync_trait call in this case's next spelling (same meaning, different way of writing it)."""
+        omit, flip = spell[ncall[0] % len(spell)]
+        ncall[0] += 1
+        if flip and kw.get("remove") and kw.get("mutual", True):
+            i, n, j, a = j, a, i, n          # a mutual link is symmetric: remove it from the other side
+            ctx.label("mutual-link-removed-from-the-partner-side")
+        if omit and n == a:
+            ctx.label("alias-omitted")
+            return objs[i].sync_trait(n, objs[j], **kw)
+        return objs[i].sync_trait(n, objs[j], a, **kw)
     M = {(i, n): (0 if n in SCALARS else []) for i in range(3) for n in SCALARS + LISTS}
     edges = set()          # (i, name, j, alias): a change of objs[i].name is copied to objs[j].alias
     links = []
@@ -272,7 +289,7 @@ def run(case, ctx):
                     if fwd_new and not accepts(a, M[(i, n)]):
                         # the partner rejects the initial copy: sync_trait raises - and must then have linked nothing
                         try:
-                            objs[i].sync_trait(n, objs[j], a, mutual=mutual)
+                            do_sync(i, n, j, a, mutual=mutual)
                             ctx.fail("sync/initial-copy-accepted", "%s: the partner cannot hold %r but sync_trait did not raise" % (what, M[(i, n)]))
                         except TraitError:
                             pass
@@ -290,7 +307,7 @@ def run(case, ctx):
                         back_val = M[(i, n)] if fwd_new else M[(j, a)]
                         if mutual and (j, a, i, n) not in edges and not accepts(n, back_val):
                             continue
-                        objs[i].sync_trait(n, objs[j], a, mutual=mutual)
+                        do_sync(i, n, j, a, mutual=mutual)
                         new_edge = (i, n, j, a) not in edges
                         edges.add((i, n, j, a))
                         if new_edge:
@@ -309,7 +326,7 @@ def run(case, ctx):
                     i, n, j, a, mutual = links.pop(op[1] % len(links))
                     if objs[i] is None or objs[j] is None:
                         continue
-                    objs[i].sync_trait(n, objs[j], a, mutual=mutual, remove=True)
+                    do_sync(i, n, j, a, mutual=mutual, remove=True)
                     edges.discard((i, n, j, a))
                     if mutual:
                         edges.discard((j, a, i, n))
@@ -324,7 +341,7 @@ def run(case, ctx):
                         continue
                     if op[2]:
                         i, n, j, a = j, a, i, n
-                    objs[i].sync_trait(n, objs[j], a, mutual=False, remove=True)
+                    do_sync(i, n, j, a, mutual=False, remove=True)
                     edges.discard((i, n, j, a))
                     if (j, a, i, n) in edges:
                         links[idx] = [j, a, i, n, False]
